@@ -1,0 +1,6 @@
+//go:build !verif
+
+package verifhook
+
+// Yield is a no-op unless built with the "verif" tag.
+func Yield(point string, arg interface{}) {}
